@@ -3,4 +3,10 @@ CLAIMED = {
  "C04": ("§4 C04",
   "For every client rate in [0,2^31), trace rate in [1,2^31) and both modes, the real mergeTraceAndSpanSampleRates produces SampleRate, meta.refinery.final_sample_rate and original_sample_rate exactly as the statement says; decided per path by z3 on the SSA of the real function and the real Payload.Set/Get.",
   "Bounds: rates below 2^31 (as in the statement). Outside: dynsampler-internal rate computation."),
+ "C10": ("§4 C10",
+  "For every rate (deterministic: 0..2^31, stress relief: 0..2^64-1) and every trace ID, with sha1/wyhash as uninterpreted functions of the ID: keep iff hash <= floor(MAX/N), threshold exactly floor(MAX/N), rate<=1 keeps all, decision a function of (ID, rate) only, nesting (kept at N => kept at every M<=N; the symbolic-division obligation is discharged by cvc5 --solve-bv-as-int), and Start/UpdateFromConfig never panic.",
+  "Bounds: trace IDs of 2 symbolic bytes (the hash is a UF of the bytes, so length only matters through the UF arity). Outside: uniformity of sha1/wyhash over random IDs — the 'kept fraction 1/N' clause is reduced to the exact size of the acceptance set floor(MAX/N)+1."),
+ "C32": ("§4 C32",
+  "For every sequence of <=3 (thorough 4) adds/removes on 2 keys at arbitrary non-decreasing instants, any TTL in [0,2^40) ns and an arbitrary later query instant (the exact expiry instant is just one value of it): Contains/Members/Length (set) and Get/Keys/Values/Length (map) agree and an item is present iff the instant is within TTL of its latest add, on the real SetWithTTL/MapWithTTL code with a symbolic clock.",
+  "Bounds: 2 keys, 3/4 operations, instants and TTL below 2^40 ns. time.Time.Add on monotonic instants is modelled as ext+=d (no overflow inside the bounds). Outside: concurrent callers (mutexes are modelled, goroutines are not run)."),
 }
